@@ -99,9 +99,28 @@ def handle : List Sx → Sx
           Sx.ofBool (table.all fun r => r.2.all fun l => l.length ≤ width)])
       else Sx.oom
     | _, _, _, _ => Sx.bad
+  | [.atom "striptags", s] =>
+    match decS s with
+    | some s => if s.contains '&' then Sx.oom else Sx.ok (encS (striptags s))
+    | _ => Sx.bad
+  | [.atom "format", fmt, .list args] =>
+    let decArg : Sx → Option FmtArg := fun
+      | .list [s, .atom "none"] => do pure ⟨← decS s, none⟩
+      | .list [s, d] => do pure ⟨← decS s, some (← decS d)⟩
+      | _ => none
+    match decS fmt, Sx.mapM? decArg args with
+    | some fmt, some args =>
+      match format fmt args with
+      | .ok out => Sx.ok (encS out)
+      | .typeError => Sx.err "TypeError"
+      | .valueError => Sx.err "ValueError"
+      | .oom => Sx.oom
+    | _, _ => Sx.bad
   | [.atom "convtable"] =>
     Sx.ok (.list (rows.map fun r => .list [.str r.name, Sx.ofInt r.base,
-      encConv (doInt intOuterCaught intInnerCaught r), encConv (doFloat floatCaught r)]))
+      encConv (intOut r), encConv (floatOut r)]))
+  | [.atom "conv-escapes"] =>
+    Sx.ok (.list (escapingRows.map fun (f, n, b, c) => .list [.str f, .str n, Sx.ofInt b, .str c]))
   | [.atom "spaces", lim] =>
     match lim.toNat? with
     | some lim => Sx.ok (.list [Sx.ofNats ((List.range lim).filter fun n => isPySpace (Char.ofNat n)),
